@@ -176,7 +176,7 @@ def cases(tier, seed):
             yield c(fmt="max", mode=mode, cols=32, rows=7, kind=kind, newsroom=True)
             yield c(fmt="max", mode=mode, cols=16, rows=3, kind=kind, skip=5)
     # full-size fixed formats
-    reps = 1 if q else 4
+    reps = 1 if q else 12
     for rep in range(reps):
         for kind in kinds:
             for rgb in (True, False):
